@@ -207,6 +207,9 @@ def slot_memos(ctx) -> None:
 
 
 def run(ctx) -> None:
+    from . import C08
+
+    C08.eqhash_agreement(ctx, ('forml.io.asset', 'forml.application'), floor=4)
     slot_memos(ctx)
     explicit(ctx)
     latest(ctx)
